@@ -349,6 +349,92 @@ def rule_validate_shape(ctx: Ctx) -> None:
                      func="CircuitDAG.validate", construct=f"validate: {cls_} test polarity")
 
 
+def rule_reg_create(ctx: Ctx) -> None:
+    """reg.create: _add_reg_if_absent(register, reg_type) — evaluated at register = n - 1, n, n + 1 (n = number of registers of that type):
+    an existing register changes nothing in the register lists, the next one (== n) extends the register list and the depth list by one
+    entry each (depth 0), a gap (> n) raises.  The wire is created exactly when the `<type><reg>_in` node is absent: Input and Output
+    nodes with matching operations and index entries, and one edge in -> out keyed `<type><reg>` carrying reg and reg_type."""
+    from .. import linear
+    repo = ctx.repo
+    m = repo.module(DAG)
+    fn = repo.anchor(DAG, "CircuitDAG._add_reg_if_absent")
+    ctx.touch(m, fn)
+    R, T = func_params(fn)[1:3]
+    bad = []
+    sizes = [i for i in fn.body if isinstance(i, ast.If) and "len(" in norm(i.test)]
+    if len(sizes) != 1:
+        raise AnalysisError("_add_reg_if_absent: the size test was not found")
+
+    def outcome(off):
+        """what happens for register = n + off: 'extend' | 'raise' | 'nothing'"""
+        cur = sizes[0]
+        while True:
+            t = cur.test
+            if not (isinstance(t, ast.Compare) and len(t.ops) == 1):
+                raise AnalysisError(f"_add_reg_if_absent: test `{short(t)}` not recognised")
+            l_, r_ = t.left, t.comparators[0]
+            flip = False
+            if norm(r_) == R and norm(l_) != R:
+                l_, r_, flip = r_, l_, True
+            if norm(l_) != R or not (isinstance(r_, ast.Call) and call_name(r_) == "len"):
+                raise AnalysisError(f"_add_reg_if_absent: test `{short(t)}` not recognised")
+            op = type(t.ops[0])
+            if flip:
+                op = {ast.Lt: ast.Gt, ast.Gt: ast.Lt, ast.LtE: ast.GtE, ast.GtE: ast.LtE}.get(op, op)
+            val = {ast.Eq: off == 0, ast.NotEq: off != 0, ast.Gt: off > 0, ast.GtE: off >= 0, ast.Lt: off < 0, ast.LtE: off <= 0}[op]
+            arm = cur.body if val else cur.orelse
+            if val or not (len(cur.orelse) == 1 and isinstance(cur.orelse[0], ast.If)):
+                if any(isinstance(x, ast.Raise) for st in arm for x in ast.walk(st)):
+                    return "raise", arm
+                apps = [c for st in arm for c in ast.walk(st) if isinstance(c, ast.Call) and call_attr(c) == "append"]
+                return ("extend" if apps else "nothing"), arm
+            cur = cur.orelse[0]
+    for off, want in ((-1, "nothing"), (0, "extend"), (1, "raise")):
+        got, arm = outcome(off)
+        if got != want:
+            bad.append(f"for register = n{off:+d}" .replace("+0", "") + f" the register lists get `{got}`, expected `{want}`")
+        elif got == "extend":
+            apps = [c for st in arm for c in ast.walk(st) if isinstance(c, ast.Call) and call_attr(c) == "append"]
+            tgt = sorted(norm(c.func.value) for c in apps)
+            if tgt != sorted([f"self._register_depth[{T}]", f"self._registers[{T}]"]):
+                bad.append(f"a new register must extend self._registers[{T}] and self._register_depth[{T}] by one entry each (got {tgt})")
+            for c in apps:
+                if "depth" in norm(c.func.value) and not (isinstance(c.args[0], ast.Constant) and c.args[0].value == 0):
+                    bad.append("the depth of a new register starts at 0")
+    wire = [i for i in fn.body if isinstance(i, ast.If) and "_in" in norm(i.test)]
+    if len(wire) != 1:
+        raise AnalysisError("_add_reg_if_absent: the test for an existing wire was not found")
+    from ..chains import positive as _pos
+    t, neg = _pos(wire[0].test)
+    creates_when_absent = (isinstance(t, ast.Compare) and isinstance(t.ops[0], ast.In) and neg and not wire[0].orelse) or \
+                          (isinstance(t, ast.Compare) and isinstance(t.ops[0], ast.In) and not neg and wire[0].orelse and not any(call_attr(c) == "add_node" for st in wire[0].body for c in calls_in(st)))
+    if not creates_when_absent:
+        bad.append(f"the wire is created under `{short(wire[0].test)}`: it must be created exactly when the Input node is absent")
+    body = wire[0].body if neg else wire[0].orelse
+    nodes_ = [c for st in body for c in ast.walk(st) if isinstance(c, ast.Call) and call_attr(c) == "add_node"]
+    kinds = sorted((norm(c.args[0]), (call_name(get_kw(c, "op")) or "").split(".")[-1]) for c in nodes_ if c.args and get_kw(c, "op") is not None)
+    if [k[1] for k in kinds] != ["Input", "Output"] or not kinds[0][0].endswith("_in'") or not kinds[1][0].endswith("_out'"):
+        bad.append(f"the wire needs an `_in` node with an Input operation and an `_out` node with an Output operation (got {kinds})")
+    edges_ = [c for st in body for c in ast.walk(st) if isinstance(c, ast.Call) and call_attr(c) == "add_edge"]
+    if len(edges_) != 1 or len(edges_[0].args) < 2 or not (norm(edges_[0].args[0]).endswith("_in'") and norm(edges_[0].args[1]).endswith("_out'")):
+        bad.append("exactly one edge from the `_in` node to the `_out` node is needed")
+    else:
+        e = edges_[0]
+        if get_kw(e, "reg") is None or norm(get_kw(e, "reg")) != R or get_kw(e, "reg_type") is None or norm(get_kw(e, "reg_type")) != T:
+            bad.append("the new edge must carry reg=<register> and reg_type=<reg_type>")
+        k = get_kw(e, "key")
+        if k is None or not (isinstance(k, ast.JoinedStr) and [norm(v.value) for v in k.values if isinstance(v, ast.FormattedValue)] == [T, R]):
+            bad.append("the new edge's key is f\"{reg_type}{register}\"")
+    idx = sorted(norm(c.args[0]) for st in body for c in ast.walk(st) if isinstance(c, ast.Call) and call_attr(c) == "_node_dict_append" and c.args)
+    if idx != ["'Input'", "'Output'"]:
+        bad.append(f"the Input / Output nodes must be filed in node_dict under 'Input' and 'Output' (got {idx})")
+    if bad:
+        for why in dict.fromkeys(bad):
+            ctx.fail("reg.create", m, fn, f"_add_reg_if_absent: {why}", func="CircuitDAG._add_reg_if_absent", construct=f"_add_reg_if_absent: {why[:70]}")
+    else:
+        ctx.ok("reg.create", m, fn, what="n-1 / n / n+1 decision, paired list growth, wire nodes, edge attributes, index entries")
+
+
 def rule_reg_ensure(ctx: Ctx) -> None:
     """reg.ensure: CircuitDAG.add makes sure that *every* quantum register the operation acts on exists before the operation is wired in:
     `_add_reg_if_absent` runs for each of them, unconditionally (the method itself does nothing for a register that exists).  A guard
@@ -392,6 +478,7 @@ def _ancs(n):
 
 def run(ctx: Ctx) -> None:
     rule_reg_ensure(ctx)
+    rule_reg_create(ctx)
     rule_validate_shape(ctx)
     from .c13 import rule_rewrite_order
     rule_rewrite_order(ctx)
@@ -423,6 +510,8 @@ def run(ctx: Ctx) -> None:
 
 
 KNOCKOUTS = [
+    Knockout("register-gap-accepted", DAG, sub_once("        elif register > len(self._registers[reg_type]):", "        elif register > len(self._registers[reg_type]) + 1:") if False else sub_once("        if register == len(self._registers[reg_type]):\n            self._registers[reg_type].append(1)", "        if register >= len(self._registers[reg_type]):\n            self._registers[reg_type].append(1)"), "reg.create", "register = n+1"),
+    Knockout("wire-created-when-present", DAG, sub_once('        if f"{reg_type}{register}_in" not in self.dag.nodes:', '        if f"{reg_type}{register}_in" in self.dag.nodes:'), "reg.create", "absent"),
     Knockout("validate-source-test-inverted", DAG, sub_once('            if not isinstance(self.dag.nodes[input_node]["op"], ops.Input):', '            if isinstance(self.dag.nodes[input_node]["op"], ops.Input):'), "validate.shape", "Input test polarity"),
     Knockout("validate-sinks-by-degree-one", DAG, sub_once("            node for node, out_degree in self.dag.out_degree() if out_degree == 0", "            node for node, out_degree in self.dag.out_degree() if out_degree == 1"), "validate.shape", "out_degree selection"),
     Knockout("add-ensures-registers-only-for-highest-index", DAG, sub_nth("        for i in range(len(register)):\n            self._add_reg_if_absent(\n                register=register[i],\n                reg_type=reg_type[i],\n            )\n", "        if register[-1] >= len(self._registers[reg_type[-1]]):\n            for i in range(len(register)):\n                self._add_reg_if_absent(\n                    register=register[i],\n                    reg_type=reg_type[i],\n                )\n", 0), "reg.ensure", "conditionally"),
